@@ -13,7 +13,7 @@ EXTENDS TraceKit, CApi
 VARIABLES l
 vars == <<l>>
 
-CtorOK(ev) == ev.o = "ok" /\ ev.null = ExpectNull(ev.kind, ev.file_ok, ev.ref_alist_ok, ev.name, ev.pat_tokens, ev.ref_enc_ok)
+CtorOK(ev) == ev.o = "ok" /\ ev.null = ExpectNull(ev.kind, ev.file_ok, ev.ref_alist_ok, ev.name, ev.pat_tokens, ev.tail_inv)   \* tail_inv: the harness's own elimination (oracle)
 DecodeOK(ev) == ev.o = "ok" /\ DecodeRel(ev.ret, ev.out, ev.out_len, ev.ref)
 EncodeOK(ev) == ev.o = "ok" /\ Len(ev.ref) > 0 /\ ev.out = ev.ref
 
